@@ -1,0 +1,13 @@
+//go:build verif
+
+package lint
+
+import (
+	"github.com/aquilax/hranoprovod-cli/cmd/hranoprovod-cli/v3/internal/utils"
+	"github.com/urfave/cli/v2"
+)
+
+// VerifNewLintCommand exposes the lint command constructor to the verification driver.
+func VerifNewLintCommand(cu utils.CmdUtils) *cli.Command {
+	return newLintCommand(cu, Lint)
+}
